@@ -4,7 +4,7 @@ ID = 'C04'
 FILES = ['prysm/fttools.py', 'prysm/coordinates.py', 'prysm/_richdata.py', 'prysm/psf.py', 'prysm/propagation.py']
 FUNCTIONS = ['fttools.fftrange', 'fttools.pad2d', 'fttools.crop_center', 'fttools.forward_ft_unit', 'fttools.fftfreq',
              'coordinates.make_xy_grid', 'RichData.x/.y/.slices', '_richdata.Slices.x/.y', 'psf.centroid',
-             'propagation.Wavefront.pad2d/crop']
+             'propagation.Wavefront.pad2d/crop', 'propagation.focus/unfocus (origin samples of the FFT route)']
 STUBS = ['np.pad -> numpy on exact object arrays', 'ndimage.center_of_mass -> definition (first moments / total)',
          'fft.fftfreq/fftshift -> definitions']
 EXPLANATION = ('Arrays have independent symbolic entries, dx / fill value / diameter are symbolic; every (input length, output '
@@ -38,9 +38,14 @@ def configs(tier):
         n1 = (n0 * 3) % hi + 1
         out.append({'name': 'grid-%dx%d' % (n0, n1), 'kind': 'grid', 'shape': [n0, n1]})
         out.append({'name': 'slices-%dx%d' % (n0, n1), 'kind': 'slices', 'shape': [n0, n1]})
-    cs = [(1, 1), (2, 2), (3, 3), (2, 3), (3, 2), (4, 4), (5, 4), (4, 5)] + ([] if q else [(6, 6), (7, 6), (5, 5), (6, 7)])
+    # (per-axis different n//2: 2x4, 5x2, 1x4, 6x3)
+    cs = [(1, 1), (2, 2), (3, 3), (2, 3), (3, 2), (4, 4), (5, 4), (4, 5), (2, 4), (5, 2), (1, 4), (6, 3)] + ([] if q else [(6, 6), (7, 6), (5, 5), (6, 7)])
     for (a, b) in cs:
         out.append({'name': 'centroid-point-%dx%d' % (a, b), 'kind': 'centroid_point', 'shape': [a, b]})
+    # the FFT propagation route shares the convention: output sample N//2 is zero frequency, input sample n//2 is the origin
+    for (a, b, Q) in [(1, 1, 1), (2, 3, 1), (3, 2, 1), (3, 3, 1), (4, 5, 1), (5, 4, 1), (5, 5, 1), (3, 3, 2), (3, 2, 3), (1, 5, 3)] + \
+            ([] if q else [(6, 7, 1), (7, 7, 1), (3, 5, 3), (5, 3, 2)]):
+        out.append({'name': 'fft-origin-%dx%d-Q%d' % (a, b, Q), 'kind': 'fft_origin', 'shape': [a, b], 'Q': Q})
     for (a, b) in [(1, 2), (2, 2), (2, 3), (3, 2)] + ([] if q else [(3, 3)]):
         out.append({'name': 'centroid-weights-%dx%d' % (a, b), 'kind': 'centroid_w', 'shape': [a, b]})
     return out
@@ -163,6 +168,19 @@ def run(cfg, H):
                 cy, cx = psf.centroid(img, dx)
                 H.eq('centroid of a point at (%d,%d)' % (i0, j0), H.asarray([cy, cx]),
                      H.asarray([(i0 - shp[0] // 2) * dx, (j0 - shp[1] // 2) * dx]))
+    elif k == 'fft_origin':
+        prop = H.mod('prysm.propagation')
+        np = H.np
+        m, n = cfg['shape']
+        Q = cfg['Q']
+        M, N = m * Q, n * Q
+        for nm_, fn in (('focus', prop.focus), ('unfocus', prop.unfocus)):
+            K = np.asarray(H.linear_map(lambda f: fn(f, Q), (m, n), name=nm_[0])).reshape(m, n, M, N)
+            c = K[m // 2, n // 2, M // 2, N // 2]
+            H.eq('%s: output sample N//2 is the zero-frequency one (same weight for every input sample)' % nm_,
+                 K[:, :, M // 2, N // 2], c + 0 * K[:, :, M // 2, N // 2])
+            H.eq('%s: the input origin sample n//2 contributes equally to every output sample' % nm_,
+                 K[m // 2, n // 2], c + 0 * K[m // 2, n // 2])
     elif k == 'centroid_w':
         psf = H.mod('prysm.psf')
         a, b = cfg['shape']
